@@ -181,7 +181,7 @@ def c02(c):
     v = [('float.mt', ['-DVF_T=float']), ('double.mt', ['-DVF_T=double']), ('ldouble.mt', ['-DVF_T=long double']),
          ('double.minstd', ['-DVF_T=double', '-DVF_ENG=std::minstd_rand']), ('double.ranlux48', ['-DVF_T=double', '-DVF_ENG=std::ranlux48'])]
     c.std([dict(src='c02_estimator.cpp', build='asan', variants=v, shards={'quick': 3, 'thorough': 3})])
-    for k in ('iterations_judged', 'adjustment_entries_judged', 'bins_judged', 'runs_plain', 'runs_vegas', 'runs_multi_channel', 'finite_values_with_non_finite_product', 'zero_values_where_weight_is_not_finite'):
+    for k in ('iterations_judged', 'adjustment_entries_judged', 'bins_judged', 'runs_plain', 'runs_vegas', 'runs_multi_channel', 'finite_values_with_non_finite_product', 'zero_values_where_weight_is_not_finite', 'constructed_results_with_N>2^32'):
         c.require(k)
 
 
@@ -387,7 +387,7 @@ def c19(c):
 def c01(c):
     c.std([dict(src='c01_lattice.cpp', build='asan', shards={'quick': 5, 'thorough': 5}),
            dict(src='c01_lattice.cpp', build='clang', shards={'quick': 1, 'thorough': 5}, tiers=('thorough',))])
-    for k in ('plain_lattices', 'vegas_lattices', 'mc_lattices', 'mc_lattices_exact_integral', 'mc_weights_checked_per_call', 'lattice_points'):
+    for k in ('plain_lattices', 'vegas_lattices', 'mc_lattices', 'mc_lattices_exact_integral', 'mc_weights_checked_per_call', 'lattice_points', 'vegas_weights_checked_in_more_than_8_dimensions'):
         c.require(k)
 
 
